@@ -12,6 +12,10 @@ EXTENDS Fold, Json, IOUtils, TLC
 
 Trace == ndJsonDeserialize("trace.ndjson")
 
+\* every unexplained event is recorded; only the first 100 with details (the state would otherwise grow
+\* quadratically when most of a trace is unexplained)
+Note(b, x) == IF Len(b) < 100 THEN Append(b, x) ELSE Append(b, [event |-> x.event])
+
 VARIABLES l, bad
 vars == <<l, bad>>
 
@@ -28,7 +32,7 @@ EventOk(ev) ==
 
 Init == l = 1 /\ bad = <<>>
 Next == /\ l <= Len(Trace)
-        /\ bad' = IF EventOk(Trace[l]) THEN bad ELSE Append(bad, [event |-> l, exp |-> Expected(Trace[l])])
+        /\ bad' = IF EventOk(Trace[l]) THEN bad ELSE Note(bad, [event |-> l, exp |-> Expected(Trace[l])])
         /\ l' = l + 1
 Done == l = Len(Trace) + 1
 WriteOut ==
